@@ -27,7 +27,7 @@ for f in sorted(glob.glob(f'{V}/lean/obligations/C*.extracted.txt')):
 EQMOD = {'Slice': ['Slice'], 'SliceFns': ['SliceFns'], 'Chr': ['Chr'], 'Str': ['Str'], 'Bytes': ['Bytes', 'Bytes2', 'BytesTrim'],
          'StrFns': ['StrFns'], 'Cmp': ['Cmp'], 'Cmp2': ['Cmp2'], 'Parser': ['ParserA', 'ParserB'], 'ParseInt': ['ParseInt'],
          'ParsePrim': ['ParsePrim', 'ParseWith'], 'Chars': ['Chars'], 'SliceIter': ['SliceIter'], 'SliceIter2': ['SliceIter2'], 'Split': ['Split'],
-         'SplitTerm': ['SplitTerm'], 'Range': ['Range'], 'RangeIter': ['RangeIter'], 'CStr': ['CStr', 'CStr2'], 'Array': ['Array'],
+         'SplitTerm': ['SplitTerm'], 'Range': ['Range'], 'RangeIter': ['RangeIter'], 'CStr': ['CStr', 'CStr2'], 'Array': ['Array'], 'Cmp3': ['Cmp3'], 'Cmp4': ['Cmp4'], 'Range2': ['Range2'], 'ParseInt2': ['ParseInt2'], 'Concat': ['Concat'], 'SliceConcat': ['SliceConcat'],
          'ProbesOpt': ['ProbesOpt'], 'ProbesIter': ['ProbesIter', 'ProbesIterModel'], 'ProbesPm': ['ProbesPm'], 'ProbesMisc': ['ProbesMisc']}
 print('| group (`Gen/<G>.lean`) | translated items (functions + types/consts) | equivalence modules (`Equiv/`) | theorems | re-checked by |')
 print('|---|---|---|---|---|')
